@@ -9,6 +9,7 @@ import (
 
 	"github.com/apparentlymart/go-versions/versions"
 	regaddr "github.com/hashicorp/terraform-registry-address"
+	svchost "github.com/hashicorp/terraform-svchost"
 )
 
 // RegistrySource represents a source address referring to a set of versions
@@ -61,6 +62,13 @@ func ParseRegistrySource(given string) (RegistrySource, error) {
 	if pkgOnlyAddr.Subdir != "" {
 		// Should never happen, because we split the subpath off above.
 		panic("post-split registry address still has subdir")
+	}
+	// The hostname library accepts some internationalised hostnames that it
+	// cannot turn back into their display form (a label of a thousand
+	// characters, say) and panics when asked to. An address that cannot be
+	// printed is not a valid address.
+	if !hostnameIsDisplayable(pkgOnlyAddr.Package.Host) {
+		return RegistrySource{}, fmt.Errorf("invalid registry hostname")
 	}
 
 	return RegistrySource{
@@ -133,4 +141,16 @@ func (s RegistrySource) FinalSourceAddr(realSource RemoteSource) RemoteSource {
 		pkg:     realSource.pkg,
 		subPath: path.Join(realSource.subPath, s.subPath),
 	}
+}
+
+// hostnameIsDisplayable reports whether ForDisplay can be called on the given
+// hostname, which panics for a hostname it cannot convert.
+func hostnameIsDisplayable(host svchost.Hostname) (ok bool) {
+	defer func() {
+		if recover() != nil {
+			ok = false
+		}
+	}()
+	_ = host.ForDisplay()
+	return true
 }
